@@ -17,6 +17,7 @@ import (
 	"sort"
 
 	"pgregory.net/rand"
+	"pgregory.net/rapid"
 )
 
 // ---------- plain-data pieces of cases ----------
@@ -128,6 +129,7 @@ func vpRatClose(got float64, want, scale *big.Rat, exact bool, rel float64) bool
 	d := new(big.Rat).Sub(vpRat(got), want)
 	d.Abs(d)
 	tol := new(big.Rat).Mul(new(big.Rat).Abs(scale), vpRat(rel))
+	tol.Add(tol, vpRat(1e-300)) // products of tiny values underflow into denormals, where relative error is unbounded
 	return d.Cmp(tol) <= 0
 }
 
